@@ -11,7 +11,7 @@ import warnings
 LEVEL = "exploration"
 RULE = ("Trees: (plus five shapes with leaf tasks waiting in to_thread.run_sync of a C-implemented callable) every task tree with <= T tasks (depth <= 3, fan-out <= 2 per nursery, 0..2 nested nurseries per task) x for each "
         "task: block in the innermost nursery body or in the nursery's __aexit__ x nursery-body ending in {plain statement, "
-        "try/except, try/finally, conditional return, while loop, `while True: ... break`, `try: ... return` / except}; generated as source, run under trio.run, observed after "
+        "try/except, try/finally, conditional return, while loop, `while True: ... break`, `try: ... return` / except}, and for trees with sibling tasks also with every child started under the same name; generated as source, run under trio.run, observed after "
         "wait_all_tasks_blocked(): extract(root_task, recurse_child_tasks=True) must be isomorphic to Trio's own tree "
         "(task.child_nurseries in nesting order as contexts whose obj is the trio.Nursery; children matched to "
         "nursery.child_tasks by root identity; recursively), each task's frames a prefix of its real cr_await chain ending at a "
@@ -76,8 +76,9 @@ def programs(max_tasks):
         yield shape
 
 
-def render(shape, choices):
-    """choices: iterator yielding (block_where, ending) for each task with nurseries, in DFS order."""
+def render(shape, choices, same_names=False):
+    """choices: iterator yielding (block_where, ending) for each task with nurseries, in DFS order.
+    same_names: every child task is started with the same explicit name (sibling tasks are then indistinguishable by name)."""
     lines = ["import trio"]
     counter = [0]
     defs = []
@@ -105,7 +106,7 @@ def render(shape, choices):
             ind += 1
             for k in kids:
                 cn = emit_task(k)
-                body.append("    " * ind + "n%d.start_soon(%s, rt)" % (ni, cn))
+                body.append("    " * ind + "n%d.start_soon(%s, rt%s)" % (ni, cn, ", name='kid'" if same_names else ""))
         # innermost nursery body ending
         pad = "    " * ind
         blk = "await trio.sleep_forever()" if where == "body" else "rt.mark()"
@@ -225,11 +226,11 @@ def compare_tree(stack, task, problems, counter, path):
             compare_tree(ch, ch.root, problems, counter, path + "/" + ch.root.name.split(".")[-1])
 
 
-def run_tree(shape, choice_list):
+def run_tree(shape, choice_list, same_names=False):
     import trio
     import trio.testing
     import stackscope
-    src, rootname = render(shape, iter(choice_list))
+    src, rootname = render(shape, iter(choice_list), same_names)
     ns = {}
     exec(compile(src, "<triotree>", "exec"), ns)
     rt = Rt()
@@ -424,6 +425,15 @@ def tree_cases(max_tasks, full_owners=2):
         for combo in itertools.product(list(itertools.product(("body", "aexit"), ENDINGS)), repeat=owners) if owners <= full_owners else \
                 itertools.product(list(itertools.product(("body", "aexit"), ("plain", "whilebreak", "tryret"))), repeat=owners):
             yield {"leg": "tree", "shape": shape, "choices": [list(c) for c in combo]}
+            if has_siblings(shape) and all(c[1] == "plain" for c in combo):
+                # sibling tasks that all carry the same name (e.g. the same function started twice)
+                yield {"leg": "tree", "shape": shape, "choices": [list(c) for c in combo], "same_names": True}
+
+
+def has_siblings(shape):
+    if shape == "Q":
+        return False
+    return any(len(nur) >= 2 or any(has_siblings(k) for k in nur) for nur in shape)
 
 
 def count_owner(shape):
@@ -438,7 +448,7 @@ def count_owner(shape):
 
 def do_case(case):
     if case["leg"] == "tree":
-        problems, n, src = run_tree(case["shape"], [tuple(c) for c in case["choices"]])
+        problems, n, src = run_tree(case["shape"], [tuple(c) for c in case["choices"]], case.get("same_names", False))
         return problems, n
     return run_hops(case["depth"], case["leaf"], case["origin"], case.get("other"))
 
